@@ -188,6 +188,13 @@ class ObjMixin:
                         o.cls = c
                         o.exact = True
                         m = c.find_method(name)
+            decos = {ast.unparse(d).split(".")[-1] for d in m.node.decorator_list}
+            if "staticmethod" in decos:
+                return Func(m, m.node, None, bound_self=None, module=m.module, defcls=m.cls)
+            if "classmethod" in decos:
+                return Func(m, m.node, None, bound_self=RepoCls(o.cls), module=m.module, defcls=m.cls)
+            if "property" in decos or "cached_property" in decos:
+                return self.invoke(Func(m, m.node, None, bound_self=o, module=m.module, defcls=m.cls), [], {}, node)
             return Func(m, m.node, None, bound_self=o, module=m.module, defcls=m.cls)
         # instance attribute assigned in a method of the class
         assigns = _self_assignments(o.cls, name)
